@@ -197,7 +197,14 @@ sb_error_t sb_uint32_msec_duration_from_float_seconds(uint32_t* result_msec, flo
         return SB_EOVERFLOW;
     }
 
-    *result_msec = (uint32_t)(duration_sec * 1000.0f);
+    duration_sec *= 1000.0f;
+    if (duration_sec >= 4294967296.0f) {
+        /* the limit above is rounded to the nearest float, so a duration that
+         * passes it can still be too large once converted to milliseconds */
+        return SB_EOVERFLOW;
+    }
+
+    *result_msec = (uint32_t)duration_sec;
 
     return SB_SUCCESS;
 }
